@@ -60,9 +60,9 @@ impl crate::unwind::Probe for IovecExec {
     }
 }
 
-struct IovecExec {
+pub(crate) struct IovecExec {
     // objects first (dropped before the buffers they may borrow from)
-    iovs: Vec<Option<OwningIovec<'static>>>,
+    pub(crate) iovs: Vec<Option<OwningIovec<'static>>>,
     aslices: Vec<Option<AnchoredSlice>>,
     arenas: Vec<Option<ByteArena>>,
     brefs: Vec<Option<Backref>>,
@@ -77,7 +77,7 @@ struct IovecExec {
     /// set once the C05 containment oracle fired in this case: the real objects now hold a dangling
     /// pointer, so no further op is executed on them (and they are leaked, not dropped) - the
     /// violation is reported with its op sequence instead of crashing the whole run.
-    dead_memory: bool,
+    pub(crate) dead_memory: bool,
 }
 
 fn handle(pfx: char, t: &str) -> Option<usize> {
@@ -731,6 +731,10 @@ impl Exec for IovecExec {
             Some(op) => Some(format!("C03 unexpected panic in {}", op)),
             None => None,
         }
+    }
+
+    fn as_any_mut(&mut self) -> Option<&mut dyn std::any::Any> {
+        Some(self)
     }
 
     fn finish(&mut self) -> StepOut {
